@@ -103,6 +103,16 @@ CHECKS = {
                      "octet alphabet, SK bodies of every length with a valid ICV, large repetitive datagrams; each under "
                      "header_only on/off and no / right / wrong keys. Outcome must be a Message or a protocol error; "
                      "executed events must stay under A + B*len + C*declared SPIs; a cap far above aborts a loop."),
+    'C02': dict(level='model_checking', technique="exhaustive enumeration of adversary action sequences (bounded deviations) "
+                "on the first four messages between two real endpoints, judged by an independent observer", engine='world-explorer',
+                text="A network adversary rewrites (every header field, payload removal / duplication / reordering / "
+                     "replacement, every SA substructure rewrite and downgrade, nonce / KE / SPI substitution, inserted "
+                     "notifications, every single octet), drops, duplicates, replays or reflects one (thorough: two) of the "
+                     "first four messages; 12 credential / identity / method mismatches; a full man in the middle running "
+                     "DH with both sides and relaying or forging AUTH. Observer (own codec and key schedule): an endpoint "
+                     "that ends up established or installs an SA accepted an AUTH that verifies under its configured "
+                     "credential and identity over the peer's IKE_SA_INIT message as it saw it, its own nonce and "
+                     "prf(SK_p, ID'), and what it saw means what the honest peer sent."),
 }
 
 # filled in as checks are built; anything in ALL but not in CHECKS is listed under not_applicable
